@@ -169,6 +169,18 @@ class Prop:
                              "name": r.choice(["a", "b", "i", "l", "cv"]), "v": r.randrange(12),
                              "exc": r.choice(["TraitError", "ValueError", "AttributeError",
                                               "RuntimeError"])})
+            if r.random() < 0.2:
+                # self-targeting re-entrancy: from inside the callback that decides this
+                # very access, pull the rug - replace / remove the trait of the same name
+                # on the same object, delete the attribute, empty the dictionary
+                op["name"] = r.choice(["cv", "cv", "dflt", "a"])
+                op["k"] = r.choice(["set", "setq", "trait_set", "get", "del", "bad_set"])
+                site = {"cv": "validator:cv", "dflt": "default:dflt", "a": "h:any"}[op["name"]]
+                envs.append({"at": site, "nth": r.choice([1, 1, 2]), "do": "adv",
+                             "act": r.choice(["add_trait", "add_trait", "remove_trait", "delattr",
+                                              "popdict", "cleardict"]),
+                             "o": op["o"], "name": op["name"], "v": r.randrange(12),
+                             "exc": "ValueError"})
             if envs:
                 op["env"] = envs
             ops.append(op)
